@@ -1050,9 +1050,11 @@ impl<'a> CompactionIterator<'a> {
 			&& !self.accumulated_versions.is_empty()
 			&& self.accumulated_versions[0].0.is_hard_delete_marker();
 
-		// Check if any version is REPLACE
-		// REPLACE semantics: delete all older versions regardless of retention
-		let has_set_with_delete = self.accumulated_versions.iter().any(|(key, _)| key.is_replace());
+		// Position of the newest REPLACE, if any (versions are sorted newest first).
+		// REPLACE semantics: delete all OLDER versions regardless of retention; a
+		// version written after the replace is an ordinary version.
+		let newest_replace_idx =
+			self.accumulated_versions.iter().position(|(key, _)| key.is_replace());
 
 		// Track the visibility of the previous (newer) version we processed.
 		// Used to detect when a newer version supersedes an older one.
@@ -1137,8 +1139,8 @@ impl<'a> CompactionIterator<'a> {
 			} else if is_hard_delete {
 				// Older DELETE: always stale (only latest tombstone matters)
 				true
-			} else if has_set_with_delete && !is_replace {
-				// REPLACE found: all older non-REPLACE versions are stale
+			} else if newest_replace_idx.is_some_and(|r| i > r) && !is_replace {
+				// Below a REPLACE: every non-REPLACE version older than it is stale
 				true
 			} else {
 				// Older PUT: check versioning and retention
